@@ -7,7 +7,7 @@ func init() {
 }
 
 func planC10(c *Ctx) epochPlan {
-	seeds := []string{"evolved", "xor", "disc", "rand"}
+	seeds := []string{"evolved", "xor", "hbd1", "disc", "hbd2", "rand", "hbd3", "hb5"}
 	modes := []string{"whole", "phase", "par"}
 	fits := []int{6, 2, 4, 5, 3, 1}
 	pl := epochPlan{prop: "C10", oracles: oChamp}
